@@ -1456,6 +1456,11 @@ class Exec:
                 if ' @' not in str(e):
                     raise Unsupported('%s @%s bb%d' % (e, fn['name'], bb))
                 raise
+            except PathEnd as e:
+                if e.status in ('panic', 'alloc', 'unreachable') and ' in ' not in e.detail:
+                    e.detail = '%s in %s' % (e.detail, fn['name'])
+                    e.args = (e.status + ':' + e.detail,)
+                raise
 
     def _is_unit(self, ty):
         r = self.p.tk(ty)
